@@ -10,6 +10,7 @@ import hal
 import hal.simulation as hs
 import ntcore
 import wpilib
+import wpilib.simulation
 
 from .core import HarnessError
 
@@ -70,3 +71,140 @@ def full_reset():
     hs.resetGlobalHandles()
     hs.pauseTiming()
     hs.restartTiming()
+
+
+# --------------------------------------------------------------------------
+# robot-thread driver (DESIGN.md 2.2, Appendix B)
+# --------------------------------------------------------------------------
+
+_gate = None
+
+
+class _Gate:
+    """counts entries into hal.waitForNotifierAlarm (looked up on the hal module at call
+    time by robotpy_ext.misc.precise_delay) so the harness knows when the robot thread is idle"""
+
+    def __init__(self):
+        self.cv = threading.Condition()
+        self.entries = 0
+        self.orig = hal.waitForNotifierAlarm
+        gate = self
+
+        def wrapped(handle):
+            with gate.cv:
+                gate.entries += 1
+                gate.cv.notify_all()
+            return gate.orig(handle)
+
+        hal.waitForNotifierAlarm = wrapped
+
+
+def gate():
+    global _gate
+    if _gate is None:
+        _gate = _Gate()
+    return _gate
+
+
+MODES = ("disabled", "auto", "teleop", "test")
+
+
+class RobotDriver:
+    HANG_S = 20.0
+
+    def __init__(self, robot_cls, fms):
+        from wpilib.simulation import DriverStationSim as DSS
+
+        self.DSS = DSS
+        self.g = gate()
+        DSS.resetData()
+        DSS.setDsAttached(True)
+        DSS.setFmsAttached(bool(fms))
+        DSS.setEnabled(False)
+        DSS.setAutonomous(False)
+        DSS.setTest(False)
+        DSS.notifyNewData()
+        wpilib.DriverStation.refreshData()
+        self.exc = None
+        self.robot = robot_cls()
+        self.thread = threading.Thread(target=self._main, daemon=True, name="robot")
+        self.ended = False
+        self.pokes = 0
+
+    def _main(self):
+        try:
+            self.robot.startCompetition()
+        except BaseException as e:  # noqa - reported to the harness thread
+            self.exc = e
+        finally:
+            with self.g.cv:
+                self.ended = True
+                self.g.cv.notify_all()
+
+    def alive(self):
+        return not self.ended
+
+    def quiesce(self, seen):
+        """block until the robot thread waits for its next alarm (or has ended)"""
+        deadline = time.time() + self.HANG_S
+        with self.g.cv:
+            while self.g.entries == seen and not self.ended:
+                left = deadline - time.time()
+                if left <= 0:
+                    raise HarnessError("robot thread neither reached the next wait nor ended within %.0fs" % self.HANG_S)
+                if not self.g.cv.wait(min(left, 0.05)):
+                    # A wake-up of the simulated notifier can get lost when several asynchronous steps
+                    # follow each other closely (observed about once in 10^3 chunked cases).  Waking the
+                    # notifiers again without moving the clock is idempotent: a thread that is busy is
+                    # not affected, a thread that missed the alarm re-reads the (unchanged) clock.
+                    self.pokes += 1
+                    hs.stepTimingAsync(0)
+
+    def start(self):
+        seen = self.g.entries
+        self.thread.start()
+        self.quiesce(seen)
+
+    def set_mode(self, mode):
+        DSS = self.DSS
+        DSS.setEnabled(mode != "disabled")
+        DSS.setAutonomous(mode == "auto")
+        DSS.setTest(mode == "test")
+        DSS.notifyNewData()
+
+    def next_alarm(self):
+        t = hs.getNextNotifierTimeout()
+        return t if t and t < (1 << 62) else None
+
+    def step_to_alarm(self):
+        """advance the clock exactly to the armed alarm -> exactly one loop iteration"""
+        if self.ended:
+            return False
+        nxt = self.next_alarm()
+        now = now_us()
+        if nxt is None:
+            raise HarnessError("robot thread is idle but no notifier alarm is armed")
+        seen = self.g.entries
+        if nxt > now:
+            hs.stepTimingAsync(nxt - now)
+        self.quiesce(seen)
+        return True
+
+    def step_partial(self, us):
+        """advance by less than the distance to the next alarm (nothing may run)"""
+        nxt = self.next_alarm()
+        now = now_us()
+        if nxt is not None and now + us < nxt:
+            hs.stepTimingAsync(us)
+            return us
+        return 0
+
+    def stop(self):
+        if not self.ended:
+            self.robot.endCompetition()
+            nxt = self.next_alarm()
+            now = now_us()
+            hs.stepTimingAsync(max(1, (nxt - now) if nxt else 20000))
+        self.thread.join(self.HANG_S)
+        if self.thread.is_alive():
+            raise HarnessError("robot thread did not end after endCompetition()")
